@@ -1119,8 +1119,16 @@ def b_reversed(ex, a, k):
     return SList(list(reversed(list(N.iterate(ex, a[0])))))
 
 
+class EnumVal(object):
+    """enumerate() over a byte string of symbolic length (annotated loops take it lazily)"""
+    def __init__(self, seq, start):
+        self.seq, self.start = seq, start
+
+
 def b_enumerate(ex, a, k):
     start = a[1] if len(a) > 1 else k.get('start', 0)
+    if isinstance(a[0], SBytes) and a[0].concrete_len() is None:
+        return EnumVal(a[0], start)
     return SList([STuple((N.binop(ex, ast.Add(), start, i), x)) for i, x in enumerate(N.iterate(ex, a[0]))])
 
 
